@@ -29,6 +29,14 @@ evaluation is not decided by a pass or action pending from an enclosing block
 documented result and, on a match, the documented actions: the same actions other than
 move/flag in the same order, and the same last move-or-flag.
 
+What is compared (audit au1): the verdict, and on a match the list of KEYS `(type, configuration line)` of the action entries
+(`Proofs.mlKeys`, `Spec.actKey`) - not the operands of the actions (destination, label text, argv, header name/value): an
+evaluator that attached the wrong string to the right action would satisfy the statement.  The operands are the subject of
+C09 (`C09_destination_*`), C12 (interpolation) and C13 (argv).  Two actions of the same type on the same line have the same
+key.  Of the move/flag actions only the LAST one is compared (`Spec.planOf`).  The valuation of a matcher is the model's own
+`eval` on the bare matcher from the empty match list (`Proofs.valuation`), so the theorem is about the combinators (and, or,
+!, match, blocks, pass, break), not about what a matcher means.
+
 This is the special case "no attachment node in the tree, `pass` / `break` last in their action list
 (`Spec.parseBlock`)" of `C03_eval_refines_spec_att_wide` below and is derived from it
 (`Proofs/EvalAttBridge.lean`: on a tree without attachment nodes `Spec.parseBlockAW` / `Spec.evalBlockA` are
@@ -978,7 +986,10 @@ theorem C03_no_action_no_effect (env : PEnv) (orc : EvalOracles) (expr : Expr) (
   Proofs.processMessage_noAct_run env orc expr md name st d content hd hf orcl hv
 
 /-- A maildir that is not open, or a name the model has no content for: no call at all; the
-second is reported as an error. -/
+second is reported as an error.  (Audit au1: a statement about the MODEL's bookkeeping, not about mdsort - the registry
+`st.files` is a device of the model; mdsort opens and parses whatever `readdir` returns.  The two degenerate branches of
+`processMessage` are where the model departs from the program by construction; the check's scenarios register every file of
+the maildirs, so the branch is not exercised there.) -/
 theorem C03_unknown_message_no_call (env : PEnv) (orc : EvalOracles) (expr : Expr) (md : Maildir) (name : Bytes)
     (st : MainSt) (orcl : Nat → Call → Res) (i : Nat) (tr : List (Call × Res)) :
     (md.dirH = none → runOracle orcl (processMessage env orc expr md name st) i tr = ((st, md), tr)) ∧
